@@ -222,6 +222,17 @@ func TestVerifC07Rtmp(t *testing.T) {
 			_, err = pkt.MarshalBinary()
 			return err != nil
 		}},
+		{name: "rtmp.decode.dec", modelled: true, gen: vC07RtmpMessage, run: func(b []byte) bool {
+			if len(b) == 0 {
+				return true
+			}
+			p := vC07RtmpProto(nil)
+			m := NewMessage()
+			m.MessageType = MessageType(b[0])
+			m.Payload = b[1:]
+			_, err := p.DecodeMessage(m)
+			return err != nil
+		}},
 		pk("rtmp.ConnectAppPacket", func() Packet { return NewConnectAppPacket() }),
 		pk("rtmp.ConnectAppResPacket", func() Packet { return NewConnectAppResPacket(1) }),
 		pk("rtmp.CallPacket", func() Packet { return NewCallPacket() }),
@@ -302,7 +313,7 @@ func TestVerifC07Rtmp(t *testing.T) {
 			return out
 		}},
 	}
-	vC07Drive(t, decs, helpers, fams, 300, 25000)
+	vC07Drive(t, decs, helpers, fams, 300, 4000)
 }
 
 func isEOF(err error) bool {
